@@ -42,6 +42,11 @@ def shards(tier, seed):
     for k in kinds:
         for i in range(2 if tier == "quick" else 6):
             out.append({"kind": k, "i": i, "n": N[tier], "hseed": seed * 1000 + 100 + len(out)})
+    # every arithmetic operation on every pair of boundary floats in every rounding mode, and the conversions from wide bitvectors:
+    # folding must not raise (quick: a seed-selected quarter of the pairs)
+    parts = 4 if tier == "quick" else 1
+    for srt in ("FLOAT", "DOUBLE"):
+        out.append({"kind": "fp-fold", "sort": srt, "part": seed % parts, "parts": parts})
     # coverage-guided part: atheris (libFuzzer) on a byte -> well-typed-tree decoder, one process per shard, own corpus each
     for i in range(2 if tier == "quick" else 10):
         out.append({"kind": "atheris", "i": i, "runs": 8000 if tier == "quick" else 250000, "fseed": seed * 100 + i + 1, "seed_corpus": i % 2 == 1})
@@ -238,6 +243,27 @@ def run_shard(shard, ctx):
         w = st.sampled_from((1, 3, 7, 9, 12, 17, 33, 63, 65))
         inner = w.flatmap(lambda n: st.one_of(gen.consts(n), gen.bv_vars(n), gen.bv_tree(n, 1, gen.cfg_for(tier, widths=(n,)))))
         strat = st.tuples(inner, spell).map(lambda v: {"sort": "bv", "tree": ("bswap", v[0]), "spell": v[1]})
+    elif kind == "fp-fold":
+        from .. import fpcheck as fc
+
+        srt = shard["sort"]
+        pool = fc.pool(srt)
+        body = _body(ctx, "fp")
+        k = 0
+        for a in pool:
+            for b in pool:
+                k += 1
+                if k % shard["parts"] != shard["part"] or ctx.out_of_time():
+                    continue
+                for op in fc.FP_ARITH:
+                    for rm in fc.RMS:
+                        body({"sort": "fp", "tree": (op, rm, ("fconst", a, srt), ("fconst", b, srt)), "spell": 0})
+        for size in (64, 128, 1024, 1025):
+            for c in (0, 1, (1 << size) - 1, 1 << (size - 1), (1 << (size - 1)) - 1, (1 << 127) % (1 << size), ((1 << 128) - 1) % (1 << size)):
+                for rm in fc.RMS:
+                    for op in ("to_fp_sbv", "to_fp_ubv"):
+                        body({"sort": "fp", "tree": (op, rm, ("const", c, size), srt), "spell": 0})
+        return
     elif kind == "fp":
         from .. import fpcheck
 
